@@ -202,6 +202,30 @@ mut("c12_yield_ignores_cancel", "C12", "ythread.c",
 mut("c12_revive_keeps_request", "C12", "thread.c",
     """    ABTD_atomic_relaxed_store_uint32(&p_thread->request, 0);""",
     """    (void)0; /* mutant: a stale cancel request survives the revive */""", "thread_revive does not clear pending requests", first=True)
+mut("c13_revert_migrate_target_loop", "C13", "thread.c",
+    """            if (ABTI_pool_get_ptr(p_sched->pools[p]) == p_thread->p_pool) {
+                is_valid = ABT_FALSE;""",
+    """            if (ABTI_pool_get_ptr(p_sched->pools[p]) != p_thread->p_pool) {
+                is_valid = ABT_FALSE;""", "reverts fix 6e1032a: ABT_thread_migrate never finds a target")
+mut("c13_revert_lost_request_fix", "C13", "thread.c",
+    """    ABTI_thread_unset_request(p_thread, ABTI_THREAD_REQ_MIGRATE);
+
+    /* Extracting an argument embedded in a migration request. */""",
+    """    /* Extracting an argument embedded in a migration request. */""", "reverts fix c5be542 (clear the request at the end again)",
+    extra=[("thread.c", """        p_mig_data->f_migration_cb(thread, p_mig_data->p_migration_cb_arg);
+    }
+    return ABT_SUCCESS;""", """        p_mig_data->f_migration_cb(thread, p_mig_data->p_migration_cb_arg);
+    }
+    ABTI_thread_unset_request(p_thread, ABTI_THREAD_REQ_MIGRATE);
+    return ABT_SUCCESS;""")])
+mut("c13_callback_twice", "C13", "thread.c",
+    """        p_mig_data->f_migration_cb(thread, p_mig_data->p_migration_cb_arg);
+    }
+    return ABT_SUCCESS;""",
+    """        p_mig_data->f_migration_cb(thread, p_mig_data->p_migration_cb_arg);
+        p_mig_data->f_migration_cb(thread, p_mig_data->p_migration_cb_arg);
+    }
+    return ABT_SUCCESS;""", "migration callback invoked twice per migration")
 mut("c01_fifo_no_second_empty_check", "C01", "pool/thread_queue.h",
     None, None, "placeholder")
 mut("c03_join_no_final_wait", "C03", "thread.c",
